@@ -627,6 +627,7 @@ Definition vec_bin (lg : bool) (o : bop) (self : vec) (p : operand) : res vec :=
       | BA Sub, PV d => okF (k_sparse lg Sub fb d)
       | BA Sub, PL d => okF (k_sparse lg Sub fb (cells_of_bits d))
       | BA Sub, PS q _ => okF (k_scalar Sub fb q)
+      | BA Sub, PArr [x] _ => okF (k_scalar Sub fb x)      (* __sub__ dispatches again: reduce_ndim([x]) is a scalar *)
       | BA Sub, PArr l _ => okF (k_array Sub fb l)
       | BA a, PL d => okB (lv_isparse (lop_of a) b d)
       | BA a, PV d => okF (k_sparse lg a fb d)
@@ -1306,7 +1307,7 @@ Fixpoint run (lg : bool) (s : store) (ops : list xop) : store * list outcome :=
   match ops with
   | [] => (s, [])
   | o :: t => let (s', r) := xstep lg s o in
-              if crashed r then (s', [r])
+              if crashed r then (s, [r])      (* the target may be partly modified: the history ends, state not compared *)
               else let (s'', rs) := run lg s' t in (s'', r :: rs)
   end.
 
